@@ -306,7 +306,11 @@ fn tsig(r: &mut StdRng, out: &mut Out, ncat: usize, n: usize) {
             let mut m = base_query_t(r, qn, &[1u16, 2, 16, 6], 1);
             if r.gen_bool(0.4) { push_additional(&mut m, &opt_rr(1232, 0, &[0], &[])); }
             let k = s.keys.choose(r).unwrap();
+            // one defect, or (35%) two different defects at once: the order in which the server applies its checks
+            // (key, MAC size, MAC, time) only shows when a request fails two of them
             let variant = r.gen_range(0..16);
+            let mut variants = vec![variant];
+            if r.gen_bool(0.35) { let v2 = r.gen_range(1..14); if v2 != variant { variants.push(v2); } }
             let mut key_name = k.name.clone();
             if r.gen_bool(0.3) { key_name = key_name.to_uppercase(); }
             let mut alg = k.alg;
@@ -318,7 +322,7 @@ fn tsig(r: &mut StdRng, out: &mut Out, ncat: usize, n: usize) {
             let mut mac_len: Option<usize> = None;
             let mut extra_after = false;
             let mut tamper: Option<usize> = None;
-            match variant {
+            for variant in variants.clone() { match variant {
                 1 => { secret = (0..secret.len()).map(|_| r.gen()).collect(); }
                 2 => { p.key_name = w("nokey.example."); }
                 3 => { p.alg_name = w("hmac-md5.sig-alg.reg.int."); }
@@ -336,7 +340,7 @@ fn tsig(r: &mut StdRng, out: &mut Out, ncat: usize, n: usize) {
                 12 => { p.time = *[0u64, 1 << 31, (1 << 32) + 5, (1 << 47) + 1].choose(r).unwrap(); }
                 13 => { p.error = *[16u16, 17, 18, 1].choose(r).unwrap(); }
                 _ => {}
-            }
+            } }
             tsig_sign(&mut m, &p, alg, &secret, mac_len);
             if let Some(i) = tamper {
                 // flip one bit of the covered message after signing
@@ -344,7 +348,7 @@ fn tsig(r: &mut StdRng, out: &mut Out, ncat: usize, n: usize) {
             }
             if extra_after { push_additional(&mut m, &plain_rr(r)); }
             let mut rec = handle(&s.server, &m, pick_transport(r), SRC);
-            rec["variant"] = json!(variant);
+            rec["variant"] = json!(variants);
             out.emit(rec);
         }
         // TSIG whose error response cannot fit a 512-octet UDP message (maximal key and algorithm names)
